@@ -486,5 +486,6 @@ def check(run):
     # a memo table of the trainer that is filled and read inside the per-problem loop hands the solution of one leading index to another unless the stored value is a function of the key
     from . import c20 as _c20
     _c20.check_instance_tables(run, A, ('pb_bss.distribution.complex_bingham',))
+    _c20.check_broadcast_writes(run, A, ('pb_bss.distribution.', 'pb_bss.extraction.', 'pb_bss.permutation_alignment'))
     check_constructors(run, A)
     check_field_ranks(run, A)
